@@ -67,7 +67,7 @@ class Env:
 
     # ---------------------------------------------------------------- connections
     def connection(self, name: str = "c0", lat: list[float] | None = None, buckets: bool = True,
-                   share_memory: bool = True, spy: "Spy | None" = None) -> Any:
+                   share_memory: bool = True, spy: "Spy | None" = None, bucket_lat: list[float] | None = None) -> Any:
         """A repid Connection for a new 'process' `name` attached to this environment."""
         from repid import Connection, InMemoryBucketBroker, InMemoryMessageBroker
 
@@ -96,7 +96,7 @@ class Env:
             ab = rb = None
             if buckets:
                 ab = RedisBucketBroker("redis://fake/1")
-                ab.conn = fredis.Client(self.rserver, name + ":ab", _lat_fn(None))  # type: ignore[assignment]
+                ab.conn = fredis.Client(self.rserver, name + ":ab", _lat_fn(bucket_lat))  # type: ignore[assignment]
                 rb = RedisBucketBroker("redis://fake/2", use_result_bucket=True)
                 rb.conn = fredis.Client(self.rserver, name + ":rb", _lat_fn(None))  # type: ignore[assignment]
             self.clients[name] = client
